@@ -15,6 +15,10 @@ Legs
               that part is non-zero), negating the reward negates the change and swaps the
               parts, a rate above / below the homeostatic target moves weight and bias down / up
               and the delay up / down.
+  multi     : ONE trainer, two connections onto one neuron group, different per-cell overrides; all
+              split checks per cell with the cell's own values.
+  (split and direction also construct the trainer with other values -- often another sign mode --
+   and let the cell override them at register_cell in 2 of 5 cases.)
 Oracles: pbt.models.stdp (pair sums; STDP family), pbt.models.homeostasis (docstring formula).
 The exact formula of the kernel / delay-adjusted rules is C18's subject and is not asserted here.
 """
@@ -798,12 +802,6 @@ def direction_case(draw, tier="quick"):
     return maybe_override(draw, case)
 
 
-def _finding_registered(fid: str) -> bool:
-    from ..harness import load_known
-
-    return any(f.get("id") == fid for f in load_known().get("findings", []))
-
-
 @st.composite
 def multi_case(draw, tier="quick"):
     """Two connections onto one neuron group (Biclique), one trainer, per-cell overrides."""
@@ -864,12 +862,11 @@ def multi_case(draw, tier="quick"):
             pal = [1.0, 1.5, 2.0, 4.0]
             tgt = ([draw(st.sampled_from(pal)) for _ in range(nout)] if draw(st.booleans())
                    else draw(st.sampled_from(pal)))
-            # LinearHomeostasis.forward keeps the FIRST cell's registered target for all later
-            # cells (proposed finding C09-homeostasis-multicell-target): differing registered
-            # targets are generated only once that finding is registered
+            # each cell registers its own target (regression for the fixed defect: forward() used
+            # to keep the FIRST cell's registered target for all later cells); 1 in 4 share one
             if k == 0:
                 same_target = tgt
-            elif not (_finding_registered("C09-homeostasis-multicell-target") and draw(st.integers(0, 3)) == 3):
+            elif draw(st.integers(0, 3)) == 3:
                 tgt = same_target
             cell["hp"]["target"] = tgt
             c08.cell_from_ctor(draw, cell, [g for g in groups if g != ["target"]], cv)
